@@ -59,6 +59,9 @@ pub enum Answer {
     Malicious { packets: Vec<MalPacket> },
     /// more packets than the cap, each with one valid record
     Flood { n: u8 },
+    /// the lookup is over (another peer's answer completed it) when this responder's answer arrives;
+    /// the answer carries a record at a distance that was not requested (`off`) or only valid ones
+    AfterLookupEnd { off: bool, picks: Vec<u16> },
 }
 
 #[derive(Clone, Debug, PartialEq, Eq, Hash, Serialize, Deserialize)]
@@ -94,7 +97,106 @@ fn dist(p: &ids::Id, e: &Enr) -> u64 {
     ids::log2(p, &e.node_id().raw()) as u64
 }
 
+/// A lookup for ONE result. The only known peer A answers with two closer nodes B and C, both are
+/// asked; B (the closest) answers and thereby ends the lookup while the request to C is still in
+/// flight; then C - the responder under test - answers.
+async fn run_after_lookup_end(case: &Case, off: bool, picks: &[u16], rep: &mut CaseReport) -> Option<(String, String)> {
+    reset_globals();
+    let mut q = Svc::new(SvcConfig { key_idx: 0, ..Default::default() }).await;
+    let a_enr = shaped_record(P_KEY, 1, Shape::V4);
+    let a_id = a_enr.node_id().raw();
+    let a_addr = shaped_addr(P_KEY, Shape::V4, false).unwrap();
+    if q.d.add_enr(a_enr.clone()).is_err() {
+        return None;
+    }
+    // B: a pool node in the other half of the id space than A; the target is right next to it
+    let pool = |i: u32| keys::padded_record(2 + i % 300, 1, 100);
+    let Some(b) = (0..300u32).map(|i| pool(i + case.pat as u32 * 13)).find(|e| dist(&a_id, e) == 256 && e.node_id().raw() != q.id) else { return None };
+    let b_id = b.node_id().raw();
+    let mut target = b_id;
+    target[31] ^= 1;
+    let Some(c) = (0..300u32).map(|i| pool(i + 7 + case.class as u32)).find(|e| dist(&a_id, e) == 256 && e.node_id().raw() != b_id && e.node_id().raw() != q.id) else { return None };
+    let c_id = c.node_id().raw();
+    let sock = |e: &Enr| std::net::SocketAddr::V4(e.udp4_socket().expect("udp4"));
+    q.take_outbox();
+    let handle = tokio::spawn(q.d.find_node_predicate(ids::node_id(&target), Box::new(|_| true), 1));
+    q.settle().await;
+    let find = |out: Vec<HandlerIn>, who: &ids::Id| -> Option<(RequestId, Vec<u64>)> {
+        out.into_iter().find_map(|m| match m {
+            HandlerIn::Request(cn, r) if cn.node_id().raw() == *who => match r.body {
+                RequestBody::FindNode { distances } => Some((r.id.clone(), distances)),
+                _ => None,
+            },
+            _ => None,
+        })
+    };
+    let Some((rid_a, ds_a)) = find(q.take_outbox(), &a_id) else {
+        rep.class("after-lookup-end/setup-did-not-work");
+        handle.abort();
+        return None;
+    };
+    if !ds_a.contains(&256) {
+        rep.class("after-lookup-end/setup-did-not-work");
+        handle.abort();
+        return None;
+    }
+    // A answers honestly with B and C
+    q.inject(HandlerOut::Response(NodeAddress::new(a_addr, ids::node_id(&a_id)), Box::new(Response { id: rid_a, body: ResponseBody::Nodes { total: 1, nodes: vec![b.clone(), c.clone()] } }))).await;
+    q.settle().await;
+    let out = q.take_outbox();
+    let to_b = find(out.clone(), &b_id);
+    let to_c = find(out, &c_id);
+    let (Some((rid_b, _)), Some((rid_c, ds_c))) = (to_b, to_c) else {
+        rep.class("after-lookup-end/setup-did-not-work");
+        handle.abort();
+        return None;
+    };
+    // B answers: the lookup has its one result and ends; the request to C is still in flight
+    q.inject(HandlerOut::Response(NodeAddress::new(sock(&b), ids::node_id(&b_id)), Box::new(Response { id: rid_b, body: ResponseBody::Nodes { total: 1, nodes: vec![] } }))).await;
+    q.settle().await;
+    if !handle.is_finished() {
+        rep.class("after-lookup-end/lookup-did-not-end");
+        handle.abort();
+        return None;
+    }
+    q.take_events();
+    // now C's answer arrives
+    let wanted: HashSet<u64> = ds_c.iter().copied().collect();
+    let mut nodes: Vec<Enr> = Vec::new();
+    for x in picks.iter().take(3) {
+        if let Some(e) = (0..300u32).map(|i| pool(*x as u32 + i)).find(|e| wanted.contains(&dist(&c_id, e)) && e.node_id().raw() != q.id && e.node_id().raw() != c_id) {
+            if !nodes.iter().any(|n| n.node_id() == e.node_id()) {
+                nodes.push(e);
+            }
+        }
+    }
+    if off {
+        if let Some(e) = (0..300u32).map(pool).find(|e| !wanted.contains(&dist(&c_id, e)) && e.node_id().raw() != c_id && e.node_id().raw() != q.id) {
+            nodes.push(e);
+        }
+    }
+    let c_addr = sock(&c);
+    q.inject(HandlerOut::Response(NodeAddress::new(c_addr, ids::node_id(&c_id)), Box::new(Response { id: rid_c, body: ResponseBody::Nodes { total: 1, nodes: nodes.clone() } }))).await;
+    let (ban_ip, ban_node) = banned(&c_addr, &c_id);
+    rep.class("answer-arrives-after-the-lookup-ended");
+    rep.nontrivial = true;
+    if off && !(ban_ip && ban_node) {
+        return Some((
+            "ban/malicious-responder-not-banned/answer-after-lookup-end".into(),
+            format!("the responder's answer to {ds_c:?} arrived after another peer's answer had completed the lookup; it contains a record at a distance that was not requested, and the responder is not banned (ip {ban_ip}, node {ban_node})"),
+        ));
+    }
+    if !off && (ban_ip || ban_node) {
+        return Some(("ban/honest-responder-banned".into(), format!("an answer with records at the requested distances {ds_c:?} that arrived after the lookup had ended got the responder banned")));
+    }
+    q.d.shutdown();
+    None
+}
+
 async fn run(case: &Case, rep: &mut CaseReport) -> Option<(String, String)> {
+    if let Answer::AfterLookupEnd { off, picks } = &case.answer {
+        return run_after_lookup_end(case, *off, picks, rep).await;
+    }
     reset_globals();
     let ban_duration = match case.ban_cfg % 3 {
         0 => None,
@@ -238,6 +340,7 @@ async fn run(case: &Case, rep: &mut CaseReport) -> Option<(String, String)> {
             }
             packets_total = deliveries.len();
         }
+        Answer::AfterLookupEnd { .. } => unreachable!("handled by run_after_lookup_end"),
         Answer::Flood { n } => {
             let n = (*n as usize).clamp(16, 40);
             for i in 0..n {
@@ -494,6 +597,7 @@ impl Property for C11 {
             5 => prop_oneof![3 => Just(vec![]), 2 => plan].prop_map(|plan| Answer::Honest { plan }),
             4 => proptest::collection::vec(mal_packet(), 1..5).prop_map(|packets| Answer::Malicious { packets }),
             1 => (16u8..40).prop_map(|n| Answer::Flood { n }),
+            1 => (prop_oneof![3 => Just(true), 1 => Just(false)], proptest::collection::vec(any::<u16>(), 0..3)).prop_map(|(off, picks)| Answer::AfterLookupEnd { off, picks }),
         ];
         (
             class,
